@@ -122,6 +122,9 @@ class AbsenceModel:
                 kw["cell_choice"] = cell_choice
             sp = Specialiser(self.mod)
             self._src[key] = src(sp.call_def(fn, args, kw, {}))
+            self._total = getattr(self, "_total", 0) + len(self._src[key])
+            if self._total > 60000000:
+                raise AnalysisError("%s: the residual reflection-condition expressions grow too large (no common structure left to merge)" % self.rel)
         return self._src[key]
 
     def residual_unique(self, syscond):
